@@ -42,7 +42,7 @@ var ObligatoryPrintDirectiveNames = []string{}
 
 func directiveInsertWordBreaks(value data.Value, args []data.Value) data.Value {
 	var (
-		input    = template.HTMLEscapeString(value.String())
+		input    = htmlEscape(value.String())
 		maxChars = int(args[0].(data.Int))
 		chars    = 0
 		output   *bytes.Buffer // create the buffer lazily
@@ -76,7 +76,7 @@ var newlinePattern = regexp.MustCompile(`\r\n|\r|\n`)
 
 func directiveChangeNewlineToBr(value data.Value, _ []data.Value) data.Value {
 	return data.String(newlinePattern.ReplaceAllString(
-		template.HTMLEscapeString(value.String()),
+		htmlEscape(value.String()),
 		"<br>"))
 }
 
@@ -123,7 +123,7 @@ func directiveNoAutoescape(value data.Value, _ []data.Value) data.Value {
 }
 
 func directiveEscapeHtml(value data.Value, _ []data.Value) data.Value {
-	return data.String(template.HTMLEscapeString(value.String()))
+	return data.String(htmlEscape(value.String()))
 }
 
 func directiveEscapeUri(value data.Value, _ []data.Value) data.Value {
